@@ -344,7 +344,7 @@ func runC15(c *Ctx) {
 				// the code chosen on this edge: the phi edge coming from tgt (or through it)
 				ir.Instrs(pf, func(x ssa.Instruction) {
 					phi, ok := x.(*ssa.Phi)
-					if !ok || phi.Comment != "code" {
+					if !ok || !types.Identical(phi.Type(), c.P.Named("pushtx", "BroadcastErrorCode")) {
 						return
 					}
 					for i, p := range phi.Block().Preds {
